@@ -1,7 +1,7 @@
 (* The wheel's pure-Python helpers (Model/PyCodec.v) against the classic codec model
    (Model/Classic.v), the integer encoding (Model/IntEnc.v) and the recursive tree hash. *)
 From Clvm Require Import Model.PyCodec Proofs.BytesLemmas Proofs.DecoderGeneric Proofs.ClassicAtoms
-  Proofs.ClassicProofs Proofs.ClassicWriter.
+  Proofs.ClassicProofs Proofs.ClassicWriter Proofs.IntEncBasics.
 From Coq Require Import Lia ZifyBool ZifyN ZifyNat.
 Ltac Zify.zify_post_hook ::= Z.div_mod_to_equations.
 Open Scope N_scope.
@@ -84,7 +84,7 @@ Theorem py_int_from_bytes_spec : forall b, wf_bytes b = true -> py_int_from_byte
 Proof.
   intros b Hwf. unfold py_int_from_bytes. destruct b as [|x r]; [reflexivity|].
   assert (E : blen (x :: r) =? 0 = false) by (unfold blen; cbn [length]; lia). rewrite E.
-  unfold py_from_bytes_signed, int_of_bytes. rewrite testbit7; [reflexivity|].
+  unfold py_from_bytes_signed, int_of_bytes. rewrite be_nat_value. rewrite testbit7; [reflexivity|].
   cbn in Hwf. apply andb_prop in Hwf. unfold wf_byte in Hwf. lia.
 Qed.
 
